@@ -161,6 +161,9 @@ func runC12(c *hx.Ctx) {
 			m = module.Version{Path: "example.com/m", Version: "v1.2.3"}
 		}
 		es := gen.ZipHostileArchive(r, m)
+		if i%25 == 1 {
+			es = gen.ZipSizeBoundaryArchive(r, m)
+		}
 		data, err := gen.ZipWriteArchive(r, es)
 		if err != nil {
 			panic(err)
